@@ -632,6 +632,7 @@ impl Datamodel for RFsmExpressionDatamodel {
                     _ => {
                         self.log("Resulting value is not a supported collection.");
                         self.internal_error_execution();
+                        return false;
                     }
                 }
                 true
